@@ -369,6 +369,33 @@ func c08Run(c *Ctx) {
 		}
 	}
 
+	// (b2) construct-level duplication: every contiguous run of segments of a corpus entry written twice (a second
+	// @insert / @slot / @else of the same name, a repeated block), and every byte prefix that ends in or after the copy.
+	// The results are mostly invalid templates: only totality is demanded of them.
+	for ci, segs := range c08Corpus() {
+		if !c.Mine() {
+			continue
+		}
+		for i := range segs {
+			for j := i; j < len(segs) && j < i+6; j++ {
+				var dup []c08seg
+				dup = append(dup, segs[:j+1]...)
+				dup = append(dup, segs[i:j+1]...)
+				dup = append(dup, segs[j+1:]...)
+				full := c08Join(dup)
+				from := len(c08Join(segs[:j+1]))
+				for cut := from + 1; cut <= len(full); cut++ {
+					if !c.Thorough() && cut != len(full) && (cut+ci)%2 == 0 {
+						continue
+					}
+					for _, seam := range []string{"parse", "eval", "page"} {
+						c08Do(c, c08Case{Mode: "duplicated-construct", Seam: seam, Src: full[:cut]}, int64(2000+cut))
+					}
+				}
+			}
+		}
+	}
+
 	// (d) files that refer to each other in a cycle: loading and rendering must still terminate
 	if c.Mine() {
 		refs := []func(string) string{
